@@ -434,7 +434,7 @@ func runC09Ctx(p *Prog, r *Report) {
 						continue
 					}
 					if c, ok := ast.Unparen(d).(*ast.CallExpr); ok {
-						if f := calleeOf(info, c); f != nil && f.Name() == "Copy" {
+						if f := calleeOf(info, c); f != nil && fname(f) == "Copy" {
 							nCopy++
 							continue
 						}
@@ -630,7 +630,7 @@ func dedup(xs []string) []string {
 func freshRangePtr(info *types.Info, e ast.Expr) bool {
 	switch e := ast.Unparen(e).(type) {
 	case *ast.CallExpr:
-		if f := calleeOf(info, e); f != nil && f.Name() == "Ptr" {
+		if f := calleeOf(info, e); f != nil && fname(f) == "Ptr" {
 			if sig, ok := f.Type().(*types.Signature); ok && sig.Recv() != nil {
 				if _, isPtr := sig.Recv().Type().(*types.Pointer); !isPtr {
 					return true
